@@ -88,8 +88,9 @@ PROPS = {
         module="OrbitModel.Properties.C06",
         theorems=["Orbit.C06.index_tracks_replay", "Orbit.C06.index_step", "Orbit.C06.seen_is_listed_before",
                   "Orbit.C06.later_put_wins", "Orbit.C06.later_delete_wins", "Orbit.C06.own_write_listed_last",
-                  "Orbit.C06.stale_key_survives"],
-        families=[("kv", 120, 4000, 16)],
+                  "Orbit.C06.stale_key_survives", "Orbit.C06.concurrent_updates_never_leave_a_stale_view",
+                  "Orbit.C06.unlocked_copy_left_a_stale_view"],
+        families=[("kv", 120, 4000, 16), ("concurrent", 20, 500, 6)],
         corr_fields={"values", "idx", "ack", "time", "next"},
         nontrivial=nt_kv,
         rule="PRNG Put/Delete histories (repeated keys, deletes of absent keys, re-puts, empty/binary values, unicode and empty keys) by 1-4 writers with interleaved Sync; Get/All compared with lwwReplay(Values()) after every step on every replica; non-trivial = >=2 writers, >=1 merge, a key written twice",
@@ -190,7 +191,7 @@ PROPS = {
     "C13": dict(
         module="OrbitModel.Properties.C13",
         theorems=["Orbit.C13.framing_round_trips", "Orbit.C13.save_errors_exactly_when_a_record_is_too_long",
-                  "Orbit.C13.save_errors_or_loads_back", "Orbit.C13.pinned_tree_wrote_unloadable_snapshot"],
+                  "Orbit.C13.save_errors_or_loads_back", "Orbit.C13.size_guards_tied_to_go_text", "Orbit.C13.pinned_tree_wrote_unloadable_snapshot"],
         families=[("snapshot", 60, 1500, 10)],
         corr_fields={"values", "heads", "idx", "len", "ack", "sync"},
         nontrivial=lambda lines: any(l.startswith("snapsaved ") or l.startswith("snapsave ") for l in lines),
@@ -213,7 +214,7 @@ PROPS = {
         module="OrbitModel.Properties.C15",
         theorems=["Orbit.C15.effective_limit", "Orbit.C15.trim_panics_iff", "Orbit.C15.trim_keeps_newest",
                   "Orbit.C15.load_lists_newest_n_of_a_chain", "Orbit.C15.load_one_head_never_panics_partial",
-                  "Orbit.C15.pinned_tree_panicked_or_emptied"],
+                  "Orbit.C15.limit_normalisation_tied_to_go_text", "Orbit.C15.pinned_tree_panicked_or_emptied"],
         families=[("limit", 80, 2500, 12)],
         corr_fields={"values", "heads", "idx", "len", "load", "local", "remote"},
         nontrivial=lambda lines: any(l.startswith("op restart ") and len(l.split()) > 3 for l in lines),
@@ -235,7 +236,8 @@ PROPS = {
     ),
     "C17": dict(
         module="OrbitModel.Properties.C17",
-        theorems=["Orbit.C17.every_acknowledged_write_is_recoverable", "Orbit.C17.protocol_invariant", "Orbit.C17.pinned_tree_loses_acknowledged_write"],
+        theorems=["Orbit.C17.every_acknowledged_write_is_recoverable", "Orbit.C17.protocol_invariant", "Orbit.C17.every_returned_write_is_in_the_view",
+                  "Orbit.C17.unlocked_copy_left_a_stale_view", "Orbit.C17.pinned_tree_loses_acknowledged_write"],
         families=[("concurrent", 60, 1500, 6)],
         corr_fields={"values", "heads", "idx", "len", "local", "load"},
         nontrivial=lambda lines: any(l.startswith("cacks ") for l in lines),
@@ -336,7 +338,7 @@ MANIFEST_TEXT = {
         note="Trusted: Lean kernel + standard axioms; the go/ast extractor (extract/main.go) that regenerates Generated/Gen.lean; which events fire and with which arguments is modelled by hand and validated by correspondence; 'Lamport times of a complete log never exceed its size' is a hypothesis of the at-rest theorem (checked on every observation by the harness).",
         technique="Lean 4 proof over arithmetic regenerated from the Go source (translator) + differential correspondence with mid-flight sampling"),
     "C06": dict(
-        text="Kernel-checked theorems: for every history of a replica (any interleaving of local appends and merged batches) the index produced by the real UpdateIndex loop (newest-to-oldest scan with a handled set over a map that is never cleared) is equivalent to the last-writer-wins replay of the current listing; entries seen by a writer are listed before its update; the later update wins. Tied to the code by replaying every Put/Delete/Sync through the model and by checking All() = lwwReplay(Values()) on the implementation after every step on every replica.",
+        text="Kernel-checked theorems: for every history of a replica (any interleaving of local appends and merged batches) the index produced by the real UpdateIndex loop (newest-to-oldest scan with a handled set over a map that is never cleared) is equivalent to the last-writer-wins replay of the current listing; entries seen by a writer are listed before its update; the later update wins; under concurrent updates of the view (every number of updaters, every schedule) the view reflects the whole log once all have returned, because the log is copied under the index lock (finding F19, repaired: the copy used to be taken before the lock, witness decide-checked and replayed with a hook). Tied to the code by replaying every Put/Delete/Sync through the model and by checking All() = lwwReplay(Values()) on the implementation after every step on every replica.",
         note="Trusted: Lean kernel + standard axioms; hand-written model of kvIndex.UpdateIndex and of the log, validated by correspondence (bounded by the generators); hypothesis KvOps (a key-value log carries only PUT/DEL) and the log universe assumptions.",
         technique="Lean 4 proof (handled-set scan = replay, invariant along histories) with differential correspondence against the real key-value store"),
     "C07": dict(
